@@ -213,6 +213,12 @@ theorem leaked_false (cfg : Cfg) (ops : List (Op κ)) (t : Task)
       · rw [e2] at a; cases a
   · exact e
 
+/-- the code as it is now never cancels a task before its first segment: the reaper waits for it (/repo ca978a8) -/
+theorem stillborn_current (ops : List (Op κ)) (t : Task) : (run current ops).stillborn t = false := by
+  cases h : (run current ops).stillborn t with
+  | false => rfl
+  | true => have := (invS_run current ops).still t h; cases this
+
 /-- **Clean-up, every configuration.**  A finished task whose clean-up was not skipped is in no registry and owns no
 unique name; with `cleanupAlways` (the repaired code) the clean-up is skipped only for a task that was cancelled
 before its first segment. -/
@@ -254,13 +260,11 @@ theorem C14_cleanup_partial (cfg : Cfg) (ops : List (Op κ)) (t : Task)
     intro k hk
     exact hown k (h.maps.names_own k t hk)
 
-/-- **Clean-up – the code as it is now: every finished task that ran at all**, however it ended (returned, raised,
-cancelled in its body or inside a done-callback), is in no registry and owns no unique name.  The one excluded case is
-a task cancelled before its first segment (`C14_cex_cancel_before_first_segment`, finding C14-F7). -/
-theorem C14_cleanup (ops : List (Op κ)) (t : Task) (hd : (run current ops).phase t = .done)
-    (hs : (run current ops).stillborn t = false) :
+/-- **Clean-up – the code as it is now: every finished task**, however it ended (returned, raised, cancelled in its
+body, inside a done-callback, or right after it was created), is in no registry and owns no unique name. -/
+theorem C14_cleanup (ops : List (Op κ)) (t : Task) (hd : (run current ops).phase t = .done) :
     Clean (run current ops) t :=
-  C14_cleanup_partial current ops t hd (Or.inl ⟨rfl, hs⟩)
+  C14_cleanup_partial current ops t hd (Or.inl ⟨rfl, stillborn_current ops t⟩)
 
 /-- **Regression statement about the pre-fix shape**: the clean-up can only be skipped without the inner
 `try … finally` (`cleanupAlways = false`), and then only by a cancellation delivered inside a callback or by the
@@ -279,10 +283,9 @@ theorem C14_regress_leak_causes (cfg : Cfg) (ops : List (Op κ)) (t : Task) (hl 
     · subst f; exact Or.inr e
     · exact Or.inl f
 
-/-- the code as it is now skips the clean-up of no task that ran at all -/
-theorem C14_never_leaks (ops : List (Op κ)) (t : Task) (hs : (run current ops).stillborn t = false) :
-    (run current ops).leaked t = false :=
-  leaked_false current ops t (Or.inl ⟨rfl, hs⟩)
+/-- the code as it is now never skips a clean-up -/
+theorem C14_never_leaks (ops : List (Op κ)) (t : Task) : (run current ops).leaked t = false :=
+  leaked_false current ops t (Or.inl ⟨rfl, stillborn_current ops t⟩)
 
 /-- **Quiescence, every configuration**: all created tasks finished and no clean-up skipped ⇒ all registries empty. -/
 theorem C14_quiescent_empty_partial (cfg : Cfg) (ops : List (Op κ))
@@ -338,14 +341,13 @@ theorem C14_quiescent_empty_partial (cfg : Cfg) (ops : List (Op κ))
     rw [hown k] at this; cases this
 
 /-- **Quiescence – the code as it is now.**  For every step sequence after which every task that was ever created has
-finished – in whatever way, as long as each of them got to run its first segment – all registries are empty. -/
+finished – in whatever way – all registries are empty. -/
 theorem C14_quiescent_empty (ops : List (Op κ))
-    (hq : ∀ t, (run current ops).phase t = .none ∨ (run current ops).phase t = .done)
-    (hs : ∀ t, (run current ops).stillborn t = false) :
+    (hq : ∀ t, (run current ops).phase t = .none ∨ (run current ops).phase t = .done) :
     (∀ t, (run current ops).u.ours t = false ∧ (run current ops).cb t = none ∧ (run current ops).hctx t = false ∧
           (run current ops).u.entry t = false ∧ (run current ops).u.names t = []) ∧
     (∀ k, (run current ops).u.owner k = none) :=
-  C14_quiescent_empty_partial current ops hq (Or.inl ⟨rfl, hs⟩)
+  C14_quiescent_empty_partial current ops hq (Or.inl ⟨rfl, stillborn_current ops⟩)
 
 /-- **Result.**  A task whose callback loop was not left by an exception finishes with the outcome of its body:
 `ok v` ↦ `v`, an exception ↦ logged and `None`, cancelled ↦ cancelled. -/
@@ -358,7 +360,7 @@ theorem C14_result (cfg : Cfg) (ops : List (Op κ)) (t : Task)
 loop is a cancellation delivered inside a done-callback; the task then ends as *cancelled* (it was cancelled), the
 callbacks not yet started are skipped (`C14_callbacks_prefix`), and it is cleaned up like every other task. -/
 theorem C14_cancel_inside_callback (ops : List (Op κ)) (t : Task) (r : Res)
-    (hb : (run current ops).bailed t = some r) (hs : (run current ops).stillborn t = false) :
+    (hb : (run current ops).bailed t = some r) :
     r = .cancelled ∧ (run current ops).result t = some .cancelled ∧ Clean (run current ops) t := by
   obtain ⟨a, b, c⟩ := (invL_run current ops).bail t r hb
   have hr : r = .cancelled := by
@@ -366,7 +368,7 @@ theorem C14_cancel_inside_callback (ops : List (Op κ)) (t : Task) (r : Res)
     · exact c
     · cases c
   subst hr
-  exact ⟨rfl, b, C14_cleanup ops t a hs⟩
+  exact ⟨rfl, b, C14_cleanup ops t a⟩
 
 /-- the unique-name maps stay mutually inverse through every schedule, aborted `finally`s included -/
 theorem C14_maps_inv (cfg : Cfg) (ops : List (Op κ)) (k : κ) (t : Task) :
@@ -430,21 +432,28 @@ theorem C14_regress_cancel_before_start_raises :
     let ops : List (Op Nat) := [.create 0 true true, .start 0, .create 1 true true, .cancel 0 (some 1)]
     ((run preFix ops).errs = 1 ∧ (run preFix ops).u.reaperQ = []) ∧
     ((run current ops).errs = 0 ∧ (run current ops).u.reaperQ = [1] ∧
-     (run current (ops ++ [.start 1, .reap])).u.reaperQ = [] ∧
-     (run current (ops ++ [.start 1, .reap])).u.cancelReq 1 = true ∧
-     (run current (ops ++ [.start 1, .reap])).phase 1 = .running) := by
+     (run current (ops ++ [.reap])).u.reaperQ = [1] ∧
+     (run current (ops ++ [.reap, .start 1, .reap])).u.reaperQ = [] ∧
+     (run current (ops ++ [.reap, .start 1, .reap])).u.cancelReq 1 = true ∧
+     (run current (ops ++ [.reap, .start 1, .reap])).phase 1 = .running) := by
   decide
 
-/-- **Witness (C14-F7, open – made reachable by e8a0175): a task cancelled before its first segment.**  When the reaper
-delivers the cancel before the new task's first step (it does so whenever it is already working through its queue),
-the task's first step throws `CancelledError` into the not yet started `run_coro`: no statement of it runs, so its
-`finally` does not either – the done-callback registered on it never runs and its `task2cb` entry (made by
-`task_done_callback_ctx` right after `create_task`) stays for ever; only `our_tasks` is tidied (asyncio done-callback). -/
-theorem C14_cex_cancel_before_first_segment :
-    let s := run current [.create 0 true true, .start 0, .create 1 true true, .addCb 0 1 2 7,
-                          .cancel 0 (some 1), .reap, (.start 1 : Op Nat)]
-    s.phase 1 = .done ∧ s.stillborn 1 = true ∧ s.result 1 = some .cancelled ∧ s.cb 1 = some [(2, 7)] ∧
-    ranOf s 1 = [] ∧ specRan s 1 = [(2, 7)] ∧ s.u.ours 1 = false ∧ s.leaked 1 = true := by
+/-- C14-F7, opened by e8a0175 and fixed by /repo ca978a8.  In between (`preF7`) the reaper, when it was already working
+through its queue, called `cancel()` on a new task before that task's first step: the step then threw `CancelledError`
+into the not yet started `run_coro`, no statement of it ran, so its `finally` did not either – the done-callback
+registered on the task never ran and its `task2cb` entry stayed for ever.  Now the same `reap` waits, the task starts,
+the next `reap` cancels it, and its body ends cancelled, its callback runs and it is forgotten. -/
+theorem C14_regress_cancel_before_first_segment :
+    let pre : List (Op Nat) := [.create 0 true true, .start 0, .create 1 true true, .addCb 0 1 2 7,
+                                .cancel 0 (some 1), .reap, .start 1]
+    let post : List (Op Nat) := [.reap, .endBody 1 .cancelled, .cbBegin 1, .cbEnd 1 .ok, .cleanup 1]
+    ((run preF7 pre).phase 1 = .done ∧ (run preF7 pre).stillborn 1 = true ∧
+     (run preF7 pre).result 1 = some .cancelled ∧ (run preF7 pre).cb 1 = some [(2, 7)] ∧
+     ranOf (run preF7 pre) 1 = [] ∧ specRan (run preF7 pre) 1 = [(2, 7)] ∧ (run preF7 pre).leaked 1 = true) ∧
+    ((run current pre).phase 1 = .running ∧ (run current pre).u.reaperQ = [1] ∧
+     (run current (pre ++ post)).phase 1 = .done ∧ (run current (pre ++ post)).result 1 = some .cancelled ∧
+     ranOf (run current (pre ++ post)) 1 = [(2, 7)] ∧ (run current (pre ++ post)).cb 1 = none ∧
+     (run current (pre ++ post)).u.ours 1 = false) := by
   decide
 
 /-- **A task can be cancelled from the moment it exists** (the code as it is now): in any state, once `create_task`
@@ -483,26 +492,29 @@ theorem C14_regress_reaper_serialises_cancellations :
      (run current (pre ++ [.reap])).inCb 0 = true) := by
   decide
 
-/-- **The reaper never waits** (the code as it is now): in any state, whatever any other task is doing, one reaper
-iteration takes the head of the queue and – if that task is running, or has not even started – cancels it. -/
+/-- **The reaper never waits for a task's clean-up or done-callbacks** (the code as it is now): in any state, whatever
+any other task is doing, one reaper iteration takes the head of the queue and – if that task is still running – cancels
+it.  The only thing it waits for is the *first statement* of a task that has not started yet (`headUnstarted`: that
+task is already on the ready queue, so the wait is one loop iteration): then the step changes nothing, and as soon as
+the task has started the first clause applies. -/
 theorem C14_reaper_never_blocks (s : St κ) (h : Task) (q : List Task) (hq : s.u.reaperQ = h :: q) :
-    (step current s .reap).u.reaperQ = q ∧
-    ((s.u.live h = true ∨ s.phase h = .created) → (step current s .reap).u.cancelReq h = true) := by
-  by_cases hs : s.phase h = .created
-  · have hu : headUnstarted s = true := by unfold headUnstarted; rw [hq]; simp [hs]
-    simp only [step, reapStep, hu, if_true, markUnstarted, hq]
-    simp
-  · have hu : headUnstarted s = false := by
+    (s.phase h ≠ .created →
+      (step current s .reap).u.reaperQ = q ∧
+      (s.u.live h = true → (step current s .reap).u.cancelReq h = true)) ∧
+    (s.phase h = .created → step current s .reap = s) := by
+  constructor
+  · intro hs
+    have hu : headUnstarted s = false := by
       unfold headUnstarted; rw [hq]
       simp only [beq_eq_false_iff_ne, ne_eq]; exact hs
     simp only [step, reapStep, hu, Bool.false_eq_true, if_false, C13.reapStepCfg, current, Bool.not_true,
       Bool.false_and, hq]
     constructor
     · split <;> rfl
-    · intro hl
-      rcases hl with hl | hl
-      · simp [hl]
-      · exact absurd hl hs
+    · intro hl; simp [hl]
+  · intro hs
+    have hu : headUnstarted s = true := by unfold headUnstarted; rw [hq]; simp [hs]
+    simp [step, reapStep, hu, current]
 
 /-! non-vacuity -/
 example : let s := run current [.create 0 true true, .start 0, .storeCtx 0, .unique 0 7 false, .addCb 0 0 1 10,
